@@ -438,41 +438,58 @@ def locate(cur, path):
     return obj
 
 
-def execute(world, cur, op, record=None):
-    """Run one op on `cur`. Returns (outcome, value) with outcome 'ok' | 'raise' | 'skip'."""
+def bind(world, cur, op, record=None):
+    """Resolve the arguments of `op` now and return a zero-argument callable that performs it
+    (so that an oracle can snapshot the argument objects before the call). Returns None when
+    the op does not apply to `cur` (skip)."""
     t = op["t"]
+    if t == "call":
+        m = getattr(cur, op["m"], None)
+        if m is None:
+            return None
+        args = [resolve(world, cur, a, record) for a in op["a"]]
+        kw = {k: resolve(world, cur, v, record) for k, v in op["k"].items()}
+        return lambda: m(*args, **kw)
+    if t == "set":
+        v = resolve(world, cur, op["v"], record)
+        return lambda: setattr(cur, op["attr"], v)
+    if t == "del":
+        return lambda: delattr(cur, op["attr"])
+    if t == "deepcopy":
+        return lambda: copy.deepcopy(cur)
+    if t == "nested":
+        try:
+            target = locate(cur, op["path"])
+        except (LookupError, AttributeError, TypeError):
+            return None
+        if not hasattr(target, "__spec_class__"):
+            return None
+        return bind(world, target, op["op"], record)
+    if t == "new":
+        cls = world.classes[op.get("cls") or world.desc["instance_class"]]
+        kw = {k: resolve(world, None, v, record) for k, v in op["k"].items()}
+        return lambda: cls(**kw)
+    raise AssertionError(op)
+
+
+def call(thunk):
     try:
-        if t == "call":
-            m = getattr(cur, op["m"], None)
-            if m is None:
-                return "skip", None
-            args = [resolve(world, cur, a, record) for a in op["a"]]
-            kw = {k: resolve(world, cur, v, record) for k, v in op["k"].items()}
-            return "ok", m(*args, **kw)
-        if t == "set":
-            v = resolve(world, cur, op["v"], record)
-            setattr(cur, op["attr"], v)
-            return "ok", None
-        if t == "del":
-            delattr(cur, op["attr"])
-            return "ok", None
-        if t == "deepcopy":
-            return "ok", copy.deepcopy(cur)
-        if t == "nested":
-            try:
-                target = locate(cur, op["path"])
-            except (LookupError, AttributeError, TypeError):
-                return "skip", None
-            if not hasattr(target, "__spec_class__"):
-                return "skip", None
-            return execute(world, target, op["op"], record)
-        if t == "new":
-            return "ok", construct(world, op, record=record)
+        return "ok", thunk()
     except CLEAN as e:
         return "raise", e
     except RecursionError as e:  # pragma: no cover
         return "raise", e
-    raise AssertionError(op)
+
+
+def execute(world, cur, op, record=None):
+    """Run one op on `cur`. Returns (outcome, value) with outcome 'ok' | 'raise' | 'skip'."""
+    try:
+        thunk = bind(world, cur, op, record)
+    except CLEAN as e:  # raised while building an argument (e.g. a nested spec literal)
+        return "raise", e
+    if thunk is None:
+        return "skip", None
+    return call(thunk)
 
 
 def is_inplace(op):
